@@ -1,4 +1,4 @@
-From Hannibal Require Import Model.Sys Chk.C09 Inv.C09.
+From Hannibal Require Import Model.Sys Chk.C09 Inv.C09 Chk.C09q.
 From Hannibal Require Props.C09.
 Check Props.C09.C09_acceptor_invariant :
   forall tr m, m09_run m09_init tr = Some m -> wf09 m.
@@ -23,3 +23,10 @@ Check Props.C09.C09_clone_is_an_ordinary_message :
     /\ (a_rx x = false -> actors s' = actors s).
 Check Props.C09.C09_table_holds_no_reference :
   forall s b w a h s', step s (EvBroker b w a h) = Acc s' -> s' = s.
+Check Props.C09.C09_mailbox_processed_in_order_of_acceptance :
+  forall tr m, m09q_run m09q_init tr = Some m ->
+  forall topic, lof (q_enq m) topic = lof (q_done m) topic ++ lof (q_wait m) topic.
+Check Props.C09.C09_nothing_after_a_processed_unsubscribe :
+  forall m b a h m' topic l1 o l2,
+  m09q_step m (EvBroker b BHolds a h) = Some m' -> q_bt m b = Some topic ->
+  lof (q_done m) topic = l1 ++ (o, TUnsubscribe, a) :: l2 -> (forall o', ~ In (o', TSubscribe, a) l2) -> False.
